@@ -232,8 +232,33 @@ def canon(x, abstract_len):
     return x
 
 
+def strip_cleanup(mir):
+    """drop unwind-only (cleanup) blocks and renumber: targets without unwinding (panic=abort,
+    e.g. the riscv64 no_std configuration) have none, and they carry no tree logic"""
+    blocks = mir["blocks"]
+    keep = [i for i, b in enumerate(blocks) if not b.get("cleanup")]
+    remap = {old: new for new, old in enumerate(keep)}
+    out = []
+    for i in keep:
+        b = json.loads(json.dumps(blocks[i]))
+        t = b["term"]
+        for k in ("t", "otherwise"):
+            if isinstance(t.get(k), int):
+                t[k] = remap.get(t[k], -1)
+        if "targets" in t:
+            t["targets"] = [[v, remap.get(x, -1)] for v, x in t["targets"]]
+        if "succ" in t:
+            t["succ"] = [remap.get(x, -1) for x in t["succ"]]
+        out.append(b)
+    m = dict(mir)
+    m["blocks"] = out
+    return m
+
+
 def body_hash(f, abstract_len):
     j = dict(f.j)
+    if j.get("mir"):
+        j["mir"] = strip_cleanup(j["mir"])
     for k in ("s", "file", "pub"):
         j.pop(k, None)
     return hashlib.sha256(json.dumps(canon(j, abstract_len), sort_keys=True).encode()).hexdigest()[:16]
